@@ -134,6 +134,11 @@ def make_table_json_precursor(cells: CellGrid, origin, fixer:ParseFixer) -> Tupl
         table_name = table_name[:-1]
     fixer.table_name = table_name
 
+    if len(cells) < 2 or len(cells[1]) == 0:
+        raise ValueError(f"Invalid table {table_name}: no destinations specified")
+    if transposed and any(len(line) < 2 for line in cells[2:]):
+        raise ValueError(f"Invalid table {table_name}: no unit specification found")
+
     # internally hold destinations as json-compatible dict
     destinations = {dest: None for dest in _get_destinations_safely_stripped(cells[1][0]).split(" ")}
     table_is_empty = len(cells) < 3
